@@ -28,6 +28,18 @@ Tie to the code on every run:
                      row and as paragraph — with text_convert default / scalar / per line / per column / matrix, and
                      every position whose flag is on must read as the one-pass reading (hence the same everywhere).
                      The same texts run through the unit level (labels `literal`, `literal-off`).
+  structured docs    a third document family: the structures that cut the data frame up before it reaches the cell
+                     builder — page_by shown as spanning heading rows with SEVERAL GROUPS ON A PAGE (the page is encoded
+                     segment by segment, `_encode(segment, …, row_offset)`), nested page_by, new_page with `first_row` /
+                     `column`, subline_by, subline_by + page_by, group_by (alone / with page_by), multi-page tables and
+                     multi-section documents (one frame + body per section) — x a text_convert that differs BETWEEN
+                     ROWS: row-wise nested list, tuple (one value per row), full matrix, cyclic matrix, 2-D array,
+                     frame of booleans (minority: per column, scalar, default).  Every cell carries a tagged convertible
+                     text; the oracle is per position: a cell is converted iff the user's value at ITS OWN (row, column)
+                     of the data frame is on (removed columns, page slices, segments and sections do not re-bind a flag).
+                     Heading texts carry tokens where the flag of the page_by column does not depend on the row.  The
+                     evidence counts, from the OUTPUT, the pages with several segments and the cells whose own flag
+                     differs from the flag of the row at the same offset from the top of their segment / page.
 
 Known deviations (reported once as KNOWN-FINDING while listed in known_findings.json, VIOLATION otherwise):
   C11-D15-blank-after-comparison   `a>=b` -> `a≥ b`
@@ -54,7 +66,12 @@ RULE = ("unit: (text, flag) pairs — every command of the symbol table x contex
         "scalar / per-line / per-column / matrix text_convert; untagged one-page tables with a literal-like text "
         "(every family x decoration pair) in every position kind incl. page_by group headings and footnote/source as "
         "table row and as paragraph, positions identified by ordinal place, the same text in all positions or one "
-        "draw per position. non-trivial = the specification produces at least one "
+        "draw per position; structured documents — page_by spanning rows with several groups on a page (segments), "
+        "nested page_by, new_page first_row / column, subline_by, subline_by + page_by, group_by, group_by + page_by, "
+        "multi-page, multi-section — x text_convert differing between rows (row-wise nested list, tuple per row, full / "
+        "cyclic matrix, 2-D array, frame; minority per column / scalar / default), all structure x shape pairs, tagged "
+        "convertible text in every cell, judged per position by the flag at the cell's own (row, column) of the data "
+        "frame. non-trivial = the specification produces at least one "
         "non-plain event (unit) or at least one position whose flag differs from the component default (doc); "
         "distinct by text (unit) or by (component flags, texts) (doc)")
 TRUSTED = [
@@ -85,7 +102,11 @@ MANIFEST = dict(
          "literals are covered by the theorems; the flag route does not depend on the text or the position kind "
          "(C11_position_independent). The subline_by heading is written outside the TextContent pipeline (never "
          "converted, no text_convert of its own) and is not a position of this check; page_by headings are (flag of "
-         "the body at the page_by column).",
+         "the body at the page_by column; in the structured documents a heading text carries tokens only where that "
+         "column's flag does not depend on the row — the statement does not say which row's flag a heading shared by "
+         "several rows takes). Per cell: the flag is the user's value at the cell's own (row, column) of the data frame, "
+         "also for cells of the second and later page_by segments of a page, of later pages and of later sections "
+         "(C11enc_segment_offset, C11enc_segment_cell_flag, C11enc_data_flag_binding; C02encflag_cell_own_flag).",
     technique="Lean 4 proof (multi-pass = one-pass by induction, table facts by decide +kernel) + differential "
               "correspondence model/implementation + Lean-defined oracle on implementation output",
     design="7/C11",
@@ -523,9 +544,11 @@ def doc_text(rng, tag, cmp_rate):
 
 
 def documented_flag(kind, user, i, j):
-    """the documented meaning of a user-supplied text_convert at line/row i, column j"""
+    """the documented meaning of a user-supplied text_convert at line/row i, column j (for a table component: row and
+    column of the data frame / text row the user passed, whatever is removed, sliced or regrouped later)"""
     if user is None:
         return DOC_DEFAULT[kind]
+    user = docgen.plain(user)       # spellings: tuple = one value per row, 2-D array / frame = matrix, 1-D = per column
     if isinstance(user, bool):
         return user
     if user and isinstance(user[0], list):          # matrix: row i, column j (recycled)
@@ -724,6 +747,275 @@ def gen_literal_doc(rng, k):
                 literal=dict(family=fam, decor=dec, mode=mode, grouped=grouped))
 
 
+# ---- structured documents: grouping / pagination / sections  x  row-wise and full-matrix text_convert --------------
+# The flag of a table cell is the user's value at the cell's OWN (row, column) of the data frame.  The renderer cuts the
+# frame up before it reaches the cell builder: columns are removed (page_by shown as spanning rows, subline_by), rows
+# are sliced per page, a page with several page_by groups is encoded segment by segment between the group headings
+# (`_encode(segment, …, row_offset=…)`), group_by blanks repeats and restores them at page starts, a multi-section
+# document has one frame and one body per section.  This family draws every such structure with a text_convert that
+# differs BETWEEN ROWS (row-wise nested list, tuple = one value per row, full / cyclic matrix, 2-D array, frame of
+# booleans — and, as a minority, per column / scalar / default), and tagged convertible texts in every cell, so that a
+# cell which takes the flag of another row (the row at the same offset from the top of the page / of the segment / of
+# the section, the displayed instead of the original column, …) reads differently from its one-pass reading.
+
+STRUCT_PLAN = ["page_by", "page_by", "page_by2", "page_by_first_row", "page_by_column", "subline", "subline_page_by",
+               "group_by", "group_by_page_by", "plain", "multi", "page_by", "multi"]
+STRUCT_SHAPES = ["rowwise", "rowwise", "tuple", "matrix", "matrix", "cyclic", "frame", "ndarray", "col", "scalar", "default"]
+
+
+def _runs_of(rng, n, prefix, lo, hi, alphabet=None):
+    """n key values in contiguous runs; consecutive runs differ (`prefix<serial>`, or drawn from a small alphabet so
+    that equal values recur under different outer groups)"""
+    out, k, prev = [], 0, None
+    while len(out) < n:
+        if alphabet:
+            v = rng.choice([a for a in alphabet if a != prev])
+        else:
+            v = f"{prefix}{k}"
+        out += [v] * rng.randint(lo, hi)
+        prev = v
+        k += 1
+    return out[:n]
+
+
+def struct_flags(rng, shape, n, ncols, const_cols, want_const):
+    """a body text_convert of the given shape over an n x ncols frame → (value, const): `const` says that the
+    columns `const_cols` (the page_by columns, whose heading shows ONE text for many rows) carry one flag for all rows"""
+    def bit():
+        return rng.random() < 0.5
+
+    if shape == "default":
+        return None, True
+    if shape == "scalar":
+        return bit(), True
+    if shape == "col":
+        m = rng.choice([ncols, ncols, max(1, ncols - 1)])
+        v = [bit() for _ in range(m)]
+        if m >= 2 and len(set(v)) == 1:
+            v[rng.randrange(m)] ^= True
+        return v, True
+    f = [bit() for _ in range(n)]
+    if n >= 2 and len(set(f)) == 1:
+        f[rng.randrange(n)] ^= True
+    if shape == "tuple":
+        return {"__tuple__": f}, False
+    if shape == "rowwise":
+        mat = [[f[i]] * ncols for i in range(n)]
+    else:
+        m = rng.randint(2, n - 1) if shape == "cyclic" and n >= 3 else n
+        mat = [[bit() for _ in range(ncols)] for _ in range(m)]
+        if m >= 2 and all(r == mat[0] for r in mat):
+            mat[rng.randrange(1, m)] = [not x for x in mat[0]]
+    const = bool(want_const)
+    if const:
+        for c in const_cols:
+            for r in mat:
+                r[c] = mat[0][c]
+    else:
+        const = all(r[c] == mat[0][c] for c in const_cols for r in mat)
+    if shape == "frame":
+        return {"__frame__": mat}, const
+    if shape == "ndarray":
+        return {"__ndarray__": mat}, const
+    return mat, const
+
+
+def _struct_section(rng, kind, shape, base, sec):
+    """one frame + body (+ header row) of a structured document → (frame, body kwargs, header kwargs | None, meta)"""
+    n = rng.choice([2, 3, 4, 5, 6, 7, 8, 9, 10, 12, 14, 18, 24])
+    ndata = rng.randint(1, 3)
+    cols = [f"c{j}" for j in range(ndata)]
+    body, keys = {}, {}
+    page_by = []
+    if kind in ("subline", "subline_page_by"):
+        keys["s0"] = _runs_of(rng, n, "SB", 2, 8)
+        body["subline_by"] = ["s0"]
+    if kind.startswith("page_by") or kind in ("subline_page_by", "group_by_page_by"):
+        page_by = ["g0", "g1"] if kind == "page_by2" else ["g0"]
+        body["page_by"] = page_by
+        if kind == "page_by_first_row":
+            body.update(new_page=True, pageby_row="first_row")
+        elif kind == "page_by_column":
+            body.update(new_page=True, pageby_row="column")
+        elif rng.random() < 0.3:
+            body["pageby_header"] = rng.random() < 0.5
+    if kind in ("group_by", "group_by_page_by"):
+        keys["k0"] = _runs_of(rng, n, "K", 1, 4)
+        body["group_by"] = ["k0"]
+    for name in list(keys) + page_by:
+        cols.insert(rng.randint(0, len(cols)), name)
+    ncols = len(cols)
+    pcs = [cols.index(c) for c in page_by]
+    fb, const = struct_flags(rng, shape, n, ncols, pcs, rng.random() < 0.5)
+    if fb is not None:
+        body["text_convert"] = fb
+    # page_by values: short runs, so that several groups share a page; they carry conversion tokens when the flag of
+    # their column does not depend on the row (the heading is one text for all rows of its group)
+    gp = "G" if sec is None else f"G{sec}"          # heading tags are distinct between sections
+    if page_by:
+        if "s0" in keys:
+            # page_by groups nest in the subline_by groups
+            outer = keys["s0"]
+            vals, i = [], 0
+            while i < n:
+                j = i
+                while j < n and outer[j] == outer[i]:
+                    j += 1
+                vals += _runs_of(rng, j - i, "", 1, 3, alphabet=[f"{gp}o{x}" for x in "abcd"])
+                i = j
+        else:
+            vals = _runs_of(rng, n, f"{gp}v", 1, 4 if len(page_by) == 1 else 6)
+        keys["g0"] = vals
+        if len(page_by) == 2:
+            inner, i = [], 0
+            while i < n:
+                j = i
+                while j < n and vals[j] == vals[i]:
+                    j += 1
+                inner += _runs_of(rng, j - i, "", 1, 3, alphabet=[f"{gp}i{x}" for x in "abc"])
+                i = j
+            keys["g1"] = inner
+        if const and rng.random() < 0.8:
+            deco = {}
+            for name in page_by:
+                for v in keys[name]:
+                    if v not in deco:
+                        deco[v] = doc_text(rng, v, 0.05)
+                keys[name] = [deco[v] for v in keys[name]]
+    rows = []
+    for i in range(n):
+        row = []
+        for c, name in enumerate(cols):
+            if name in keys:
+                row.append(keys[name][i])
+            elif rng.random() < 0.12:
+                row.append(f"B{base + i}x{c} plain")
+            else:
+                row.append(doc_text(rng, f"B{base + i}x{c}", 0.05))
+        rows.append(row)
+    spanning = bool(page_by) and not (body.get("new_page") and body.get("pageby_row") == "column")
+    removed = set(body.get("subline_by", [])) | (set(page_by) if spanning else set())
+    shown = [c for c in cols if c not in removed]
+    header = None
+    if rng.random() < 0.7:
+        htag = f"H{'' if sec is None else sec}x"
+        header = dict(text=[doc_text(rng, f"{htag}{j}", 0.05) for j in range(len(shown))])
+        r = rng.random()
+        if r < 0.5:
+            header["text_convert"] = [rng.random() < 0.5 for _ in range(rng.choice([len(shown), len(shown), 1]))]
+        elif r < 0.7:
+            header["text_convert"] = rng.random() < 0.5
+    meta = dict(kind=kind, shape=shape, n=n, heading_tokens=bool(page_by) and " " in keys[page_by[0]][0])
+    return dict(cols=cols, rows=rows), body, header, meta
+
+
+def gen_struct_doc(rng, k):
+    """a structured document (STRUCT_PLAN x STRUCT_SHAPES, all pairs over 143 consecutive k)"""
+    kind = STRUCT_PLAN[k % len(STRUCT_PLAN)]
+    shape = STRUCT_SHAPES[k % len(STRUCT_SHAPES)]
+    spec = dict(kind="table")
+    metas = []
+    if kind == "multi":
+        frames, bodies, headers, base = [], [], [], 0
+        for s in range(rng.randint(2, 3)):
+            skind = rng.choice(["page_by", "page_by", "page_by2", "subline", "plain", "group_by"])
+            fr, body, header, meta = _struct_section(rng, skind, shape if s == 0 else rng.choice(STRUCT_SHAPES), base, s)
+            frames.append(fr)
+            bodies.append(body)
+            headers.append([header])
+            metas.append(meta)
+            base += len(fr["rows"])
+        spec.update(kind="multi", df=frames, body=bodies, headers=headers)
+    else:
+        fr, body, header, meta = _struct_section(rng, kind, shape, 0, None)
+        spec.update(df=fr, body=body, headers=[header] if header else [])
+        metas.append(meta)
+    page = dict(nrow=rng.choice([10, 12, 14, 16, 20, 28, 40]))
+    for key in ("page_title", "page_footnote", "page_source"):
+        if rng.random() < 0.5:
+            page[key] = rng.choice(["first", "last", "all"])
+    spec["page"] = page
+    for key, tagc in (("title", "T"), ("subline", "S"), ("page_header", "P"), ("page_footer", "Q")):
+        if rng.random() < 0.4:
+            nl = rng.choice([1, 1, 2])
+            comp = dict(text=[doc_text(rng, f"{tagc}{i}", 0.05) for i in range(nl)])
+            r = rng.random()
+            if r < 0.3:
+                comp["text_convert"] = rng.random() < 0.5
+            elif r < 0.6:
+                comp["text_convert"] = [rng.random() < 0.5 for _ in range(nl)]
+            spec[key] = comp
+    for key, tagc in (("footnote", "F"), ("source", "R")):
+        if rng.random() < 0.4:
+            comp = dict(text=doc_text(rng, f"{tagc}0", 0.05))
+            if rng.random() < 0.5:
+                comp["text_convert"] = rng.random() < 0.5
+            if rng.random() < 0.5:
+                comp["as_table"] = rng.random() < 0.5
+            spec[key] = comp
+    return struct_case(spec, dict(kind=kind, shape=shape, sections=metas))
+
+
+def _tag_of(text):
+    return text.split(" ", 1)[0]
+
+
+def struct_case(spec, meta):
+    """the check's case of a structured document: every text position, derived from the spec alone (tag = first word of
+    the text; a text without a blank carries no tokens and is not a position).  Positions marked `multi` may stand on
+    several pages (headings, column headers, title …): every occurrence must read as expected; a body cell stands
+    exactly once."""
+    positions, flags = [], {}
+    multi = spec.get("kind") == "multi"
+    frames = spec["df"] if multi else [spec["df"]]
+    bodies = spec["body"] if multi else [spec.get("body") or {}]
+    hdrs = spec.get("headers") or []
+    for s, (fr, body) in enumerate(zip(frames, bodies)):
+        fk = f"body#{s}" if multi else "body"
+        flags[fk] = body.get("text_convert")
+        page_by = body.get("page_by") or []
+        spanning = bool(page_by) and not (body.get("new_page") and body.get("pageby_row") == "column")
+        skip = set(body.get("subline_by") or []) | set(body.get("group_by") or [])
+        seen = set()
+        for i, row in enumerate(fr["rows"]):
+            for c, name in enumerate(fr["cols"]):
+                t = row[c]
+                if name in skip or not isinstance(t, str) or " " not in t:
+                    continue
+                if name in page_by:
+                    # one text for all rows of the group: a spanning heading row (flag read at the page_by column) or a
+                    # cell per row of a displayed page_by column
+                    if t not in seen:
+                        seen.add(t)
+                        positions.append(dict(kind="body", fk=fk, role="group-heading" if spanning else "page_by-cell",
+                                              container=_tag_of(t), line=0, row=0 if spanning else i, col=c, text=t, multi=True))
+                    continue
+                positions.append(dict(kind="body", fk=fk, container=_tag_of(t), line=0, row=i, col=c, text=t))
+        h = hdrs[s] if s < len(hdrs) else None
+        if multi and isinstance(h, list):
+            h = h[0] if h else None
+        if h:
+            hk = f"header#{s}" if multi else "header"
+            flags[hk] = h.get("text_convert")
+            for j, t in enumerate(h["text"]):
+                positions.append(dict(kind="header", fk=hk, container=_tag_of(t), line=0, row=0, col=j, text=t, multi=True))
+    for kind in ("title", "subline", "page_header", "page_footer"):
+        comp = spec.get(kind)
+        if comp:
+            flags[kind] = comp.get("text_convert")
+            texts = comp["text"] if isinstance(comp["text"], list) else [comp["text"]]
+            for i, t in enumerate(texts):
+                positions.append(dict(kind=kind, container=_tag_of(texts[0]), line=i, row=i, col=0, text=t, multi=True))
+    for kind in ("footnote", "source"):
+        comp = spec.get(kind)
+        if comp:
+            flags[kind] = comp.get("text_convert")
+            positions.append(dict(kind=kind, container=_tag_of(comp["text"]), line=0, row=0, col=0, text=comp["text"], multi=True))
+    for p in positions:
+        p["want"] = documented_flag(p["kind"], flags.get(p.get("fk", p["kind"])), p["row"], p["col"])
+    return dict(spec=spec, positions=positions, flags=flags, struct=meta)
+
+
 def _flagval_json(v):
     if isinstance(v, tuple):
         if all(isinstance(x, bool) for x in v):
@@ -750,19 +1042,24 @@ def _merge_runs(para):
     return dict(runs=out, unknown=unk)
 
 
-def _containers(doc):
-    """all paragraphs and cells of a read document, merged"""
+def _containers(doc, where=None):
+    """all paragraphs and cells of a read document, merged; `where` (a list) receives the place of each: (page, block
+    of the page, cell of the row) — page −1 for the page header / footer"""
     out = []
+    where = [] if where is None else where
     for h in doc.headers + doc.footers:
         for p in h:
             out.append(_merge_runs(p))
-    for pg in doc.pages:
-        for b in pg.blocks:
+            where.append([-1, 0, 0])
+    for pn, pg in enumerate(doc.pages):
+        for bn, b in enumerate(pg.blocks):
             if b.kind == "row":
-                for c in b.cells:
+                for cn, c in enumerate(b.cells):
                     out.append(_merge_runs(c))
+                    where.append([pn, bn, cn])
             elif b.kind in ("para", "loose"):
                 out.append(_merge_runs(b))
+                where.append([pn, bn, -1])
     return out
 
 
@@ -802,6 +1099,14 @@ def _doc_worker(case):
         comp = dict(title=d.rtf_title, subline=d.rtf_subline, page_header=d.rtf_page_header, page_footer=d.rtf_page_footer,
                     body=d.rtf_body, footnote=d.rtf_footnote, source=d.rtf_source)
         hdr = d.rtf_column_header
+        if spec.get("kind") == "multi":
+            # one body and one (first) column header row per section
+            for s_, b_ in enumerate(d.rtf_body if isinstance(d.rtf_body, list) else [d.rtf_body]):
+                comp[f"body#{s_}"] = b_
+            for s_, h_ in enumerate(hdr if isinstance(hdr, list) else []):
+                while isinstance(h_, list) and h_:
+                    h_ = h_[0]
+                comp[f"header#{s_}"] = h_ if not isinstance(h_, list) else None
         while isinstance(hdr, list) and hdr:
             hdr = hdr[0]
         comp["header"] = hdr
@@ -819,7 +1124,8 @@ def _doc_worker(case):
         doc = rtfread.read(s)
     except rtfread.RtfError as e:
         return dict(status="unreadable", msg=str(e))
-    return dict(status="ok", containers=_containers(doc), held=held)
+    where = []
+    return dict(status="ok", containers=_containers(doc, where), where=where, held=held)
 
 
 def _find_container(containers, tag):
@@ -833,6 +1139,8 @@ def judge_doc(res, known, table, case, ob, drv_flags, drv_texts):
     layout = case.get("layout")
     if layout is not None:
         cjson["layout"] = layout
+    if case.get("struct") is not None:
+        cjson["struct"] = case["struct"]
     if ob["status"] != "ok":
         res.fail(cjson, f"document in the property's domain failed: {ob}")
         return
@@ -847,18 +1155,20 @@ def judge_doc(res, known, table, case, ob, drv_flags, drv_texts):
     for tag, idxs in groups.items():
         ps = [case["positions"][i] for i in idxs]
         hits = [ob["containers"][layout.index(tag)]] if layout is not None else _find_container(ob["containers"], tag)
-        if len(hits) != 1:
+        # a position may stand on several pages (`multi`: repeated headings, column headers, titles …): at least once,
+        # and every occurrence is judged; any other position stands exactly once
+        if not hits or (len(hits) != 1 and not all(p.get("multi") for p in ps)):
             res.fail(cjson, f"text position {tag} found {len(hits)} times in the output")
             return
-        got = hits[0]
+        fkey = ps[0].get("fk", ps[0]["kind"])
         # flags: documented meaning vs model on the constructed value
         for i, p in zip(idxs, ps):
             mf = drv_flags[i]
             if mf is None:
-                res.disagree(cjson, f"model has no flag for {p['kind']} at ({p['row']},{p['col']}) held={ob['held'].get(p['kind'])}")
+                res.disagree(cjson, f"model has no flag for {p['kind']} at ({p['row']},{p['col']}) held={ob['held'].get(fkey)}")
             elif mf != p["want"]:
                 res.disagree(cjson, f"model flag {mf} != documented meaning {p['want']} for {p['kind']} "
-                                    f"value {case['flags'].get(p['kind'])!r} at ({p['row']},{p['col']}), held {ob['held'].get(p['kind'])}")
+                                    f"value {case['flags'].get(fkey)!r} at ({p['row']},{p['col']}), held {ob['held'].get(fkey)}")
         exp_nat, exp_d15, exp_model, exp_ref = [], [], [], []
         need = set()
         for i, p in zip(idxs, ps):
@@ -882,30 +1192,42 @@ def judge_doc(res, known, table, case, ob, drv_flags, drv_texts):
             want_ref = read_expected(exp_ref)
         except rtfread.RtfError as e:
             raise common.MachineryError(f"expected paragraph unreadable: {e}")
-        if got != want_model:
-            res.disagree(cjson, f"{tag}: observed {got} != reading of the model's text {want_model}")
-        if got == want_nat:
-            continue
-        if need and need <= known and got == want_ref:
-            for f in need:
-                res.known_hits[f] = res.known_hits.get(f, 0) + 1
-            continue
-        why = (f"{ps[0]['kind']} position {tag} (text_convert={case['flags'].get(ps[0]['kind'])!r}, flags wanted "
-               f"{[p['want'] for p in ps]}): read back {got}, the one-pass reading of {[p['text'] for p in ps]} is {want_nat}")
-        if need and got == want_ref:
-            why += f" [class {sorted(need)} — not listed in known_findings.json]"
-        if layout is not None:
-            # the same text in another position whose flag is on as well: what does it read there?
-            for tag2, idxs2 in groups.items():
-                ps2 = [case["positions"][i] for i in idxs2]
-                if tag2 != tag and [p["text"] for p in ps2] == [p["text"] for p in ps] and \
-                        [p["want"] for p in ps2] == [p["want"] for p in ps]:
-                    got2 = ob["containers"][layout.index(tag2)]
-                    if got2 != got:
-                        why += f"; the same text with the same flags in {ps2[0]['kind']} position {tag2} reads {got2}"
-                        break
-        res.fail(cjson, why)
-        return
+        for got in hits:
+            if got != want_model:
+                res.disagree(cjson, f"{tag}: observed {got} != reading of the model's text {want_model}")
+            if got == want_nat:
+                continue
+            if need and need <= known and got == want_ref:
+                for f in need:
+                    res.known_hits[f] = res.known_hits.get(f, 0) + 1
+                continue
+            where = ""
+            if ps[0]["kind"] == "body" and case.get("struct") is not None:
+                where = f" at frame position (row {ps[0]['row']}, column {ps[0]['col']})" + \
+                        (f" [{ps[0]['role']}]" if ps[0].get("role") else "")
+            why = (f"{ps[0]['kind']} position {tag}{where} (text_convert={case['flags'].get(fkey)!r}, flags wanted "
+                   f"{[p['want'] for p in ps]}): read back {got}, the one-pass reading of {[p['text'] for p in ps]} is {want_nat}")
+            if need and got == want_ref:
+                why += f" [class {sorted(need)} — not listed in known_findings.json]"
+            if case.get("struct") is not None:
+                conv_read = read_expected([reference_multipass(p["text"], table) for p in ps])
+                raw_read = read_expected([p["text"] for p in ps])
+                if conv_read != raw_read and not any(p["want"] for p in ps) and got == conv_read:
+                    why += "; the position's own flag is off, yet it reads as converted"
+                elif conv_read != raw_read and all(p["want"] for p in ps) and got == raw_read:
+                    why += "; the position's own flag is on, yet it reads verbatim"
+            if layout is not None:
+                # the same text in another position whose flag is on as well: what does it read there?
+                for tag2, idxs2 in groups.items():
+                    ps2 = [case["positions"][i] for i in idxs2]
+                    if tag2 != tag and [p["text"] for p in ps2] == [p["text"] for p in ps] and \
+                            [p["want"] for p in ps2] == [p["want"] for p in ps]:
+                        got2 = ob["containers"][layout.index(tag2)]
+                        if got2 != got:
+                            why += f"; the same text with the same flags in {ps2[0]['kind']} position {tag2} reads {got2}"
+                            break
+            res.fail(cjson, why)
+            return
 
 
 def _drive_docs(cases, obs):
@@ -914,7 +1236,7 @@ def _drive_docs(cases, obs):
     index = []
     for ci, (c, o) in enumerate(zip(cases, obs)):
         for pi, p in enumerate(c["positions"]):
-            held = (o.get("held") or {}).get(p["kind"]) if o["status"] == "ok" else None
+            held = (o.get("held") or {}).get(p.get("fk", p["kind"])) if o["status"] == "ok" else None
             rq = dict(op="c11_flag", r=p["row"], c=p["col"])
             if held is not None:
                 rq["val"] = held
@@ -978,15 +1300,33 @@ def _reduce_literal(case, drop=None, row=None):
     return c
 
 
+def _observe(cases):
+    """`_doc_worker` over the cases, in worker processes — never inline in the parent of a check (a parent that has run
+    polars code must not fork another pool: common.assert_fork_safe)"""
+    cases = list(cases)
+    if not cases:
+        return []
+    pad = cases + [cases[-1]] * max(0, 4 - len(cases))
+    return common.pool_map(_doc_worker, pad, chunksize=1)[:len(cases)]
+
+
+def _failures_of(known, table, cands):
+    """the failures `judge_doc` records for each candidate document (one batch of workers, one driver batch)"""
+    obs = _observe(cands)
+    per = _drive_docs(cands, obs)
+    out = []
+    for ci, (c, o) in enumerate(zip(cands, obs)):
+        tmp = common.Result("C11", "quick", 0)
+        judge_doc(tmp, known, table, c, o, *per.get(ci, ([], [])))
+        out.append(tmp.failures)
+    return out
+
+
 def shrink_literal(known, table, case):
     """greedy reduction of a failing untagged document (drop optional components, keep one body row);
     returns (case, failures) of the smallest still-failing document, or None"""
     def failing(c):
-        o = _doc_worker(c)
-        per = _drive_docs([c], [o])
-        tmp = common.Result("C11", "quick", 0)
-        judge_doc(tmp, known, table, c, o, *per.get(0, ([], [])))
-        return tmp.failures
+        return _failures_of(known, table, [c])[0]
 
     cur, cur_f = case, None
     for kind in ("page_header", "page_footer", "title", "subline", "footnote", "source"):
@@ -1005,14 +1345,183 @@ def shrink_literal(known, table, case):
     return (cur, cur_f) if cur_f else None
 
 
+def _struct_variant(case, edit):
+    """the structured case whose spec is `edit(copy of the spec)` (None when the edit does not apply)"""
+    import copy
+    spec = copy.deepcopy(case["spec"])
+    if edit(spec) is False:
+        return None
+    return struct_case(spec, dict(case["struct"], reduced=True))
+
+
+def _full_matrix(case, fk, fr):
+    """the body's text_convert written out as the full nested list over the frame (same flag at every cell)"""
+    v = case["flags"].get(fk)
+    return [[documented_flag("body", v, i, c) for c in range(len(fr["cols"]))] for i in range(len(fr["rows"]))]
+
+
+def shrink_struct(known, table, case):
+    """reduction of a failing structured document: drop optional components, write the body's text_convert out as a
+    full matrix, remove blocks of rows (with their matrix rows), remove data columns; every candidate of a round is
+    rendered in one batch of worker processes.  Returns (case, failures) of the smallest still-failing one, or None"""
+    cur, cur_f = case, None
+    rounds = [0]
+
+    def step(cands):
+        nonlocal cur, cur_f
+        cands = [c for c in cands if c is not None]
+        rounds[0] += 1
+        if not cands or rounds[0] > 150:          # (every accepted step makes the document smaller; the bound is a fuse)
+            return False
+        for c, f in zip(cands, _failures_of(known, table, cands)):
+            if f:
+                cur, cur_f = c, f
+                return True
+        return False
+
+    def drop(key):
+        def edit(spec):
+            if key == "headers":
+                if spec["kind"] == "multi":
+                    if all(h in (None, [None], []) for h in spec.get("headers") or []):
+                        return False
+                    spec["headers"] = [[None] for _ in spec["df"]]
+                else:
+                    if not spec.get("headers"):
+                        return False
+                    spec["headers"] = []
+            elif key == "page":
+                page = spec.get("page") or {}
+                if set(page) <= {"nrow"}:
+                    return False
+                spec["page"] = dict(nrow=page["nrow"])
+            else:
+                if spec.get(key) is None:
+                    return False
+                spec.pop(key)
+        return edit
+
+    while step([_struct_variant(cur, drop(k)) for k in ("page_header", "page_footer", "title", "subline", "footnote",
+                                                         "source", "headers", "page")]):
+        pass
+    if cur["spec"]["kind"] != "table":
+        return (cur, cur_f) if cur_f else None
+
+    def full(spec):
+        if spec["body"].get("text_convert") is None:
+            return False
+        spec["body"]["text_convert"] = _full_matrix(cur, "body", spec["df"])
+    step([_struct_variant(cur, full)])
+    full_ok = isinstance(cur["spec"]["body"].get("text_convert"), list) and \
+        len(cur["spec"]["body"]["text_convert"]) == len(cur["spec"]["df"]["rows"]) and \
+        all(isinstance(r, list) and len(r) == len(cur["spec"]["df"]["cols"]) for r in cur["spec"]["body"]["text_convert"])
+
+    def cut_rows(a, b):
+        def edit(spec):
+            rows = spec["df"]["rows"]
+            if b - a >= len(rows):
+                return False
+            del rows[a:b]
+            if full_ok:
+                del spec["body"]["text_convert"][a:b]
+        return edit
+
+    if full_ok or cur["spec"]["body"].get("text_convert") is None or isinstance(cur["spec"]["body"].get("text_convert"), bool):
+        chunk = max(1, len(cur["spec"]["df"]["rows"]) // 2)
+        while chunk >= 1:
+            n = len(cur["spec"]["df"]["rows"])
+            if not step([_struct_variant(cur, cut_rows(a, min(n, a + chunk))) for a in range(0, n, chunk)]):
+                chunk //= 2
+            else:
+                chunk = min(chunk, max(1, len(cur["spec"]["df"]["rows"]) // 2))
+
+    def cut_col(c):
+        def edit(spec):
+            if spec.get("headers"):
+                return False
+            for r in spec["df"]["rows"]:
+                del r[c]
+            del spec["df"]["cols"][c]
+            if full_ok:
+                for r in spec["body"]["text_convert"]:
+                    del r[c]
+        return edit
+
+    if full_ok:
+        while step([_struct_variant(cur, cut_col(c)) for c, name in enumerate(cur["spec"]["df"]["cols"])
+                    if name.startswith("c") and sum(x.startswith("c") for x in cur["spec"]["df"]["cols"]) > 1]):
+            pass
+    return (cur, cur_f) if cur_f else None
+
+
+_BTAG = re.compile(r"^\s*B(\d+)x(\d+) ")
+
+
+def struct_profile(case, ob):
+    """what the OUTPUT of a structured document shows about the input class: number of pages; (page, section) pairs
+    whose data rows stand in several segments (separated by heading rows); body cells of a later segment whose own flag
+    differs from the flag of the row at the same offset from the top of the segment (counted from the page's first
+    row); body cells of a later page whose own flag differs from the flag of the row at the same offset from the top
+    of the page (counted from the section's first row)"""
+    prof = dict(pages=0, seg_pages=0, seg_shift_cells=0, page_shift_cells=0)
+    if ob.get("status") != "ok":
+        return prof
+    bypos = {p["container"]: p for p in case["positions"] if p["kind"] == "body" and not p.get("multi")}
+    pages = {}
+    for cont, (pn, bn, cn) in zip(ob["containers"], ob["where"]):
+        if pn < 0:
+            continue
+        pages.setdefault(pn, {})
+        m = _BTAG.match("".join(r[0] for r in cont["runs"])) if cn >= 0 else None
+        blk = pages[pn].setdefault(bn, dict(row=cn >= 0, cells=[]))
+        if m:
+            p = bypos.get(f"B{m.group(1)}x{m.group(2)}")
+            if p is not None:
+                blk["cells"].append(p)
+    prof["pages"] = len(pages)
+    for pn in sorted(pages):
+        start = {}          # section → (frame row of the page's first data row)
+        seg = {}            # section → [block of the previous data row, page-relative index, index of the segment start]
+        nseg = {}
+        for bn in sorted(pages[pn]):
+            blk = pages[pn][bn]
+            if not blk["cells"]:
+                continue
+            fk = blk["cells"][0].get("fk", "body")
+            i = blk["cells"][0]["row"]
+            start.setdefault(fk, i)
+            if fk not in seg:
+                seg[fk] = [bn, 0, 0]
+                nseg[fk] = 1
+            else:
+                last, rel, s0 = seg[fk]
+                rel += 1
+                # any row or paragraph between two data rows starts a new segment
+                if any(last < b < bn for b in pages[pn]):
+                    s0 = rel
+                    nseg[fk] += 1
+                seg[fk] = [bn, rel, s0]
+            _, rel, s0 = seg[fk]
+            user = case["flags"].get(fk)
+            for p in blk["cells"]:
+                if s0 > 0 and documented_flag("body", user, start[fk] + rel - s0, p["col"]) != p["want"]:
+                    prof["seg_shift_cells"] += 1
+                if start[fk] > 0 and documented_flag("body", user, rel, p["col"]) != p["want"]:
+                    prof["page_shift_cells"] += 1
+        prof["seg_pages"] += sum(1 for v in nseg.values() if v > 1)
+    return prof
+
+
 def run_docs(res, known, table, corpus_docs=()):
     ndocs = 160 if res.tier == "quick" else 2200
     nlit = 240 if res.tier == "quick" else 2400
+    nstruct = 286 if res.tier == "quick" else 2860
     cases = list(corpus_docs) + [gen_doc(sub_rng(res.seed, "c11doc", k), res.tier) for k in range(ndocs)]
     cases += [gen_literal_doc(sub_rng(res.seed, "c11litdoc", k), k) for k in range(nlit)]
+    cases += [gen_struct_doc(sub_rng(res.seed, "c11struct", k), k) for k in range(nstruct)]
     obs = common.pool_map(_doc_worker, cases, chunksize=4)
     per_case = _drive_docs(cases, obs)
-    shrunk = []
+    shrunk = set()
     for ci, (c, o) in enumerate(zip(cases, obs)):
         fl, tx = per_case.get(ci, ([], []))
         nondefault = any(p["want"] != DOC_DEFAULT[p["kind"]] for p in c["positions"])
@@ -1020,10 +1529,12 @@ def run_docs(res, known, table, corpus_docs=()):
         res.case(dict(level="doc", spec=c["spec"], flags=c["flags"]), nt)
         res.count("doc")
         for k, v in c["flags"].items():
+            spelled = next((m.strip("_") for m in docgen.MARKERS if isinstance(v, dict) and m in v), None)
+            v = docgen.plain(v)
             shape = ("default" if v is None else "scalar" if isinstance(v, bool) else
                      "matrix" if v and isinstance(v[0], list) and len(v) > 1 else
                      "row" if v and isinstance(v[0], list) else "list")
-            res.count(f"doc_flag:{k}:{shape}")
+            res.count(f"doc_flag:{k.split('#')[0]}:{shape}{'(' + spelled + ')' if spelled else ''}")
         for p in c["positions"]:
             res.count(f"doc_pos:{p['kind']}:{'on' if p['want'] else 'off'}")
             if c.get("layout") is not None:
@@ -1033,14 +1544,40 @@ def run_docs(res, known, table, corpus_docs=()):
             res.count("doc_literal")
             res.count(f"doc_literal:{lit['family']}:{lit['decor']}")
             res.count(f"doc_literal_mode:{lit['mode']}{'+page_by' if lit['grouped'] else ''}")
+        if c.get("struct"):
+            st = c["struct"]
+            res.count("doc_struct")
+            res.count(f"doc_struct:{st['kind']}")
+            res.count(f"doc_struct:{st['kind']}:{st['shape']}")
+            for sec in st.get("sections", []):
+                if st["kind"] == "multi":
+                    res.count(f"doc_struct_section:{sec['kind']}:{sec['shape']}")
+                if sec.get("heading_tokens"):
+                    res.count("doc_struct_section_with_convertible_heading_text")
+            for p in c["positions"]:
+                if p["kind"] == "body":
+                    res.count(f"doc_struct_pos:body{':' + p['role'] if p.get('role') else ''}:{'on' if p['want'] else 'off'}")
+            prof = struct_profile(c, o)
+            if prof["pages"] > 1:
+                res.count("doc_struct_multipage")
+            if prof["seg_pages"]:
+                res.count("doc_struct_with_page_of_several_segments")
+                res.count("doc_struct_pages_of_several_segments", prof["seg_pages"])
+            if prof["seg_shift_cells"]:
+                res.count("doc_struct_with_cell_whose_flag_differs_from_the_row_at_its_segment_offset")
+                res.count("doc_struct_cells_whose_flag_differs_from_the_row_at_their_segment_offset", prof["seg_shift_cells"])
+            if prof["page_shift_cells"]:
+                res.count("doc_struct_with_cell_whose_flag_differs_from_the_row_at_its_page_offset")
+                res.count("doc_struct_cells_whose_flag_differs_from_the_row_at_their_page_offset", prof["page_shift_cells"])
         res.corr_checked += 1
         nfail = len(res.failures)
         judge_doc(res, known, table, c, o, fl, tx)
-        if len(res.failures) > nfail and c.get("layout") is not None and not shrunk:
-            # the first failing untagged document is reported in its reduced form as well (listed first)
-            shrunk.append(True)
+        family = "literal" if c.get("layout") is not None else "struct" if c.get("struct") else None
+        if len(res.failures) > nfail and family and family not in shrunk:
+            # the first failing document of a family is reported in its reduced form as well (listed first)
+            shrunk.add(family)
             try:
-                small = shrink_literal(known, table, c)
+                small = shrink_literal(known, table, c) if family == "literal" else shrink_struct(known, table, c)
             except common.MachineryError:
                 raise
             except Exception as e:  # noqa: BLE001
@@ -1061,7 +1598,7 @@ def reconfirm_known(known, table):
     lines = []
     for fid in sorted(known):
         t = FINDINGS[fid]["input"]
-        ob = _unit_worker((t, True))
+        ob = common.isolated(_unit_worker, (t, True))
         r = common.driver_batch([dict(op="c11_convert", t=cps(t), conv=True, **({"out": cps(ob[1])} if ob[0] == "ok" else {}))])[0]
         if ob[0] == "ok" and not r["holds_natural"]:
             lines.append(f"KNOWN-FINDING: property=C11 id={fid} input={t!r} output={ob[1]!r} expected={from_cps(r['natural'])!r} "
@@ -1084,7 +1621,8 @@ def load_corpus():
                 units.append(dict(label=c.get("label", "corpus"), text=c.get("text") or from_cps(c["t"]), conv=c["conv"]))
             elif c.get("level") == "doc":
                 docs.append(dict(spec=c["spec"], positions=c["positions"], flags=c["flags"],
-                                 **({"layout": c["layout"]} if c.get("layout") is not None else {})))
+                                 **({"layout": c["layout"]} if c.get("layout") is not None else {}),
+                                 **({"struct": c["struct"]} if c.get("struct") is not None else {})))
     return units, docs
 
 
@@ -1108,7 +1646,9 @@ def run(res: common.Result, build) -> int:
         res, build, RULE, TRUSTED, ASSUME,
         explanation="C11_literal_passes_one_pass (all texts), C11_conversion_upto_D15 / C11_conversion_partial (all regular "
                     "texts, by induction), C11_supported_commands (every nameable row of the table), C11_conversion_off, "
-                    "C11_per_position, C11_position_independent, C11_backslash_free_regular / "
+                    "C11_per_position, C11_position_independent, C11enc_data_flag_binding / C11enc_segment_offset / "
+                    "C11enc_segment_cell_flag (a cell of any page, segment or section is converted under the flag at its "
+                    "own row and column; C02encflag_cell_own_flag), C11_backslash_free_regular / "
                     "C11_conversion_backslash_free (number-like texts), C11_defaults; ¬C11_full by the witnesses a>=b, \\mathbb{^}, \\alpha\\pagefield, "
                     "\\alpha{\\pagefield. Table facts are decide +kernel obligations over the regenerated tables.",
         known_lines=klines)
@@ -1148,7 +1688,7 @@ def replay(payload) -> int:
     if case.get("level") == "unit":
         t = case.get("text") if case.get("text") is not None else from_cps(case["t"])
         conv = case["conv"]
-        ob = _unit_worker((t, conv))
+        ob = common.isolated(_unit_worker, (t, conv))
         rq = dict(op="c11_convert", t=cps(t), conv=conv)
         if ob[0] == "ok":
             rq["out"] = cps(ob[1])
@@ -1174,11 +1714,14 @@ def replay(payload) -> int:
             bad = bad or bool(tmp.disagreements)
     elif case.get("level") == "doc":
         c = dict(spec=case["spec"], positions=case["positions"], flags=case["flags"],
-                 **({"layout": case["layout"]} if case.get("layout") is not None else {}))
+                 **({"layout": case["layout"]} if case.get("layout") is not None else {}),
+                 **({"struct": case["struct"]} if case.get("struct") is not None else {}))
         saved_tier = tmp.tier
-        o = _doc_worker(c)
+        o = _observe([c])[0]
         fl, tx = _drive_docs([c], [o]).get(0, ([], []))
         judge_doc(tmp, known, table, c, o, fl, tx)
+        if c.get("struct") is not None:
+            print("structure      :", json.dumps(c["struct"]), "| output:", struct_profile(c, o))
         for _, why in tmp.failures:
             print("FAIL:", why)
         for _, why in tmp.disagreements:
